@@ -870,6 +870,12 @@ pub fn mutate_json(js: &str, m: &Value, group: &str) -> Result<Vec<String>, Stri
                                 if nm.is_char_boundary(p) {
                                     let q = (p + 1).min(nm.len());
                                     alts.push(format!("{}{}{}", &nm[..p], ch, &nm[q..]));
+                                    // the same number of *bytes* as the original name (a length check passes, a byte
+                                    // index then lands inside the character)
+                                    let q2 = p + ch.len_utf8();
+                                    if q2 <= nm.len() && nm.is_char_boundary(q2) {
+                                        alts.push(format!("{}{}{}", &nm[..p], ch, &nm[q2..]));
+                                    }
                                 }
                             }
                         }
@@ -925,6 +931,13 @@ pub fn mutate_json(js: &str, m: &Value, group: &str) -> Result<Vec<String>, Stri
                     for p in [0usize, 7, 13, 14, 15, 16, n.saturating_sub(1)] {
                         if p < n {
                             let t = format!("{}{}{}", &old[..p], ch, &old[p + 1..]);
+                            let mut d = doc.clone();
+                            json_set(&mut d, path, Value::String(t));
+                            outs.push(serde_json::to_string(&d).unwrap());
+                        }
+                        // byte length preserved: the character takes the place of as many hex digits as it has bytes
+                        if p + ch.len_utf8() <= n {
+                            let t = format!("{}{}{}", &old[..p], ch, &old[p + ch.len_utf8()..]);
                             let mut d = doc.clone();
                             json_set(&mut d, path, Value::String(t));
                             outs.push(serde_json::to_string(&d).unwrap());
